@@ -23,7 +23,7 @@ func init() {
 			"from the proof/hash parameters of verification, block application and undo, no slice in the caller's order reaches a requires-sorted function, and hashes are " +
 			"paired with targets only in the same order class. R05b: neither forest's Modify reads Proof.Proof anywhere in its call closure, so junk, trailing or " +
 			"non-canonical proof hashes cannot influence the forests (a sufficient argument for that clause). R05c: all three implementations delete before they add.",
-		NotDecided: "that the three implementations compute equal roots (position arithmetic, hashing) and that they equal the reference value.",
+		NotDecided:  "that the three implementations compute equal roots (position arithmetic, hashing) and that they equal the reference value.",
 		Assumptions: []string{"order contracts of the API entries are tabled from the documentation"},
 		Rules:       []RuleDef{{ID: "R05", Statement: "order independence and proof-hash non-interference of block application", Run: runC05}},
 	})
